@@ -563,12 +563,25 @@ func (ex *Exec) decideAll(obls []*Obligation, cfg SolveCfg) {
 			hard = append(hard, ob)
 		}
 	}
+	// the long retries exist to keep a loaded machine from turning a slow proof into an alarm on a tree
+	// where everything else holds; when some obligation already has a definite counter-model the run
+	// fails anyway and the stragglers are reported as they are
+	definite := false
+	for _, ob := range obls {
+		if ob.Status == "sat" && !ex.openFindings[ob.Name] {
+			definite = true
+		}
+	}
+	if definite {
+		hard = nil
+	}
 	// few stragglers: most likely slow, not failing -> a long, nearly sequential retry (longer still when
 	// the machine is busy); many: most likely a broken proof -> the shorter retry
-	if len(hard) <= 4 {
-		t := 6 * cfg.T2
+	if len(hard) == 0 {
+	} else if len(hard) <= 4 {
+		t := 4 * cfg.T2
 		if machineBusy() {
-			t = 12 * cfg.T2
+			t = 8 * cfg.T2
 		}
 		parallel(hard, 2, func(ob *Obligation) { ex.decideRace(ob, cfg, t) })
 	} else if len(hard) <= 12 {
